@@ -536,6 +536,18 @@ def main():
         violations.append(("spec", path, ""))
         reported += 1
     unknown_spec_fail = len(violations)
+    # a disagreement whose implementation side is a PANIC that a known finding identifies by its
+    # panic message (panic_regex, e.g. the debug assertion D41) is that finding seen through a target
+    # whose spec does not judge the outcome (C16's `raw`: the settings were restored, the read
+    # panicked, the model returns the line) - not a new disagreement
+    rest = []
+    for case in st.corr_fail:
+        k = match_known(known, pid, case) if "panic" in case[2] else None
+        if k and k.get("panic_regex"):
+            known_hit.setdefault(k["id"], [0, k, case])[0] += 1
+        else:
+            rest.append(case)
+    st.corr_fail = rest
     # correspondence disagreements / broken proofs: search for a failing input, else report anyway
     if st.corr_fail and not violations:
         st.corr_fail.sort(key=lambda c: len(c[1]))
